@@ -624,6 +624,8 @@ type forest struct {
 	sizes  map[string]int
 	// long name of the built-in whose display symbol a user chord took over ("" = none)
 	takenOver string
+	// name of the user chord that extends the taken-over symbol ("" = none)
+	overTop string
 	// name of a user chord whose display symbol is spelled like the long name of a built-in ("" = none):
 	// that symbol is not usable for the user chord (the name wins), the chord is reachable by its own name
 	nameAlias string
@@ -743,6 +745,16 @@ func genForest(r *rand.Rand, tag string) forest {
 		f.depth[uc.Name] = 1
 		f.chords = append(f.chords, uc)
 		f.takenOver = long
+		// and a chord that extends the symbol just taken over, written as the symbol: its parent is the user's
+		// chord, whatever was looked up before it (round 10, C16-mutR10b: a memo of resolved chords stored under
+		// name and symbol, so that playing the built-in by its long name first handed its notes to the symbol)
+		if b := f.attrs[(f.sizes[a.Name]+len(f.chords))%len(f.attrs)]; f.sizes[b.Name] != f.sizes[a.Name] && f.sizes[b.Name] != 0 {
+			top := userChord{Name: "Ztop" + tag, Display: "ztop" + tag, Extends: uc.Display, Attrs: []string{b.Name}}
+			f.semis[top.Name] = []int{0, f.sizes[a.Name], f.sizes[b.Name]}
+			f.depth[top.Name] = 2
+			f.chords = append(f.chords, top)
+			f.overTop = top.Name
+		}
 	}
 	// a built-in name defined again under the display symbol of ANOTHER built-in that is defined after it
 	// (Sixth comes before MinorSixth in the built-in list): the re-definition is the last definition of both
@@ -937,6 +949,80 @@ func userForestCase(c *core.Ctx, i int, r *rand.Rand) {
 		if k, _, why, _ := soundedKeys(c, f.takenOver, args); why == "" && !eqInts(sortedInts(k), sortedInts(exp)) {
 			c.Violate("forest", i, sig+":takenover", fmt.Sprintf("a user chord took over the symbol %q; the long name %s now sounds %v, the built-in is %v", theory.ChordNames[f.takenOver], f.takenOver, sortedInts(k), exp), desc)
 			return
+		}
+	}
+	// a history: the built-in by its long name, then the chord that extends the symbol it lost, then the symbol
+	// itself - what was resolved earlier in the piece must not change what a later chord means
+	if f.overTop != "" {
+		hist := []string{f.takenOver, f.overTop, theory.ChordNames[f.takenOver], f.takenOver}
+		if i%2 == 1 {
+			hist = []string{f.takenOver, theory.ChordNames[f.takenOver], f.overTop, f.takenOver}
+		}
+		bi, _ := theory.ChordSemis(f.takenOver)
+		wantOf := func(n string) []int {
+			var sem []int
+			switch n {
+			case f.takenOver:
+				sem = bi
+			case f.overTop:
+				sem = f.semis[f.overTop]
+			default:
+				sem = f.semis["Ztake"+fmt.Sprint(i%10)]
+			}
+			exp := []int{48}
+			for _, s := range sem {
+				exp = append(exp, 60+s)
+			}
+			return sortedInts(exp)
+		}
+		inRange := true
+		for _, n := range hist {
+			for _, k := range wantOf(n) {
+				if k > 127 {
+					inRange = false
+				}
+			}
+		}
+		if inRange {
+			var p model.Piece
+			for _, n := range hist {
+				p.Inst = append(p.Inst, model.Instance{Chord: &model.ChordSpec{Deg: theory.Interval{N: 1, Q: theory.Perfect}, Symbol: n}, Values: one()})
+			}
+			res, out := playPiece(c, p, model.Flags{}, writeOpts{extra: args})
+			if infra(c, res) {
+				return
+			}
+			if a := abnormal(res); a != "" || !res.OK() {
+				c.Violate("forest", i, sig+":history-refused", fmt.Sprintf("a piece of the chords %q, each of which plays alone, is refused or ends abnormally (%s)", hist, a), withYAML(obs(res), p))
+				return
+			}
+			if sf, derr := decodeSMF(out); sf == nil {
+				c.Violate("forest", i, sig+":history-decode", "history piece: "+derr, obs(res))
+				return
+			} else {
+				byTick := map[uint64][]int{}
+				var ticks []uint64
+				for _, e := range mergedEvents(sf) {
+					if e.Kind == smfdec.NoteOn {
+						if _, seen := byTick[e.Tick]; !seen {
+							ticks = append(ticks, e.Tick)
+						}
+						byTick[e.Tick] = append(byTick[e.Tick], e.Key())
+					}
+				}
+				sort.Slice(ticks, func(a, b int) bool { return ticks[a] < ticks[b] })
+				if len(ticks) != len(hist) {
+					c.Violate("forest", i, sig+":history-count", fmt.Sprintf("a piece of %d chords strikes notes at %d ticks", len(hist), len(ticks)), desc)
+					return
+				}
+				for j, n := range hist {
+					if got := sortedInts(byTick[ticks[j]]); !eqInts(got, wantOf(n)) {
+						c.Violate("forest", i, sig+":history", fmt.Sprintf("in the piece %q chord %d (%q) sounds %v; alone it means %v (the symbol %q belongs to the user's chord, the long name %s to the built-in)", hist, j+1, n, got, wantOf(n), theory.ChordNames[f.takenOver], f.takenOver), desc)
+						return
+					}
+				}
+				c.Count("forest_histories", 1)
+			}
 		}
 	}
 	// built-ins stay usable next to the user dictionary
